@@ -82,6 +82,9 @@ def make_exc(kind: str, tag: Any) -> BaseException:
         return cls(f"injected {tag}")
     if kind == "Group":
         return ExceptionGroup(f"injected group {tag}", [ValueError(f"member {tag}"), KeyError(f"member2 {tag}")])
+    if kind == "Group1":
+        # a group with a single ordinary member (what a task group in the block raises when one child failed): still a group
+        return ExceptionGroup(f"injected group of one {tag}", [ValueError(f"only member {tag}")])
     if kind == "BaseGroup":
         return BaseExceptionGroup(f"injected base group {tag}", [BaseCustom(f"member {tag}"), ValueError(f"member2 {tag}")])
     if kind == "KeyboardInterrupt":
@@ -102,7 +105,7 @@ def make_exc(kind: str, tag: Any) -> BaseException:
     raise ValueError(kind)
 
 
-EXC_KINDS = ["ValueError", "Custom", "Group", "KeyboardInterrupt", "SystemExit", "BaseCustom", "BaseGroup"]
+EXC_KINDS = ["ValueError", "Custom", "Group", "Group1", "KeyboardInterrupt", "SystemExit", "BaseCustom", "BaseGroup"]
 ORDINARY_EXC_KINDS = ["ValueError", "Custom", "LookupError"]
 
 
